@@ -507,7 +507,7 @@ impl Property for C01 {
     fn runs(&self, tier: Tier) -> u64 {
         match tier {
             Tier::Quick => 120_000,
-            Tier::Thorough => 6_000_000,
+            Tier::Thorough => 2_000_000,
         }
     }
     fn generate(&self, rng: &mut Rng, tier: Tier) -> Scenario {
@@ -552,6 +552,9 @@ impl Property for C01 {
         if sc.cap_bits > 192 {
             // BigNum division is bit-by-bit: ~0.2 s per operation at 700 bits
             sc.budget = sc.budget.min(200);
+        } else if sc.cap_bits > 96 {
+            // ~1 ms per gcd at 2 x 192 bits: long runs only with small values
+            sc.budget = sc.budget.min(400);
         }
         sc.set_knob("app", if rng.chance(25) { 1 } else { 0 });
         if rng.chance(20) {
